@@ -42,9 +42,9 @@ EXTENDS Integers, Sequences, FiniteSets, TLC, Json
 
 CONSTANTS Family, Deviations, Emit
 
-VARIABLES sc, ph, bound, found, inms, res
+VARIABLES sc, ph, bound, found, inms, res, res2
 
-vars == <<sc, ph, bound, found, inms, res>>
+vars == <<sc, ph, bound, found, inms, res, res2>>
 
 (* term table: <<term, identity class, key of the pinned matcher>> *)
 Terms == {
@@ -72,7 +72,10 @@ Quals == {"none", "declared", "diffname", "alias", "selfname", "unbound", "laste
 \* sib = "binds": an earlier file of the same package imports, under the qualifier's name, a package that has no I
 \* (imports are file-scoped: the annotated file's own imports decide)
 Base == [qual |-> "declared", ikind |-> "iface", cptr |-> TRUE, recv |-> "value", via |-> "direct",
-         pT |-> "int", pI |-> "int", rT |-> "string", rI |-> "string", vT |-> FALSE, vI |-> FALSE, two |-> FALSE, sib |-> "none", sealed |-> FALSE]
+         pT |-> "int", pI |-> "int", rT |-> "string", rI |-> "string", vT |-> FALSE, vI |-> FALSE, two |-> FALSE, sib |-> "none", sealed |-> FALSE, second |-> "none"]
+\* second: T carries one more @implements line, before (..1) or after (..2) the main one: unbound (`nope2.J`, IMPL01),
+\* viol (`d.V` with a method T does not have, IMPL03 missing Nope), ok (`d.E0`, an empty interface); annotations are judged one by one
+Seconds == {"unbound1", "unbound2", "viol1", "viol2", "ok1", "ok2"}
 \* sealed = TRUE: the interface is d.Sealed with the *unexported* method seal(), which T can only obtain by embedding a type of d:
 \* via foreignVal (struct{ d.Base }), foreignPtr (struct{ *d.Base }), foreignIface (struct{ d.Sealed }); recv is the receiver kind
 \* of d's own method (Base.seal has a value receiver, PBase.seal a pointer receiver)
@@ -98,7 +101,11 @@ InitSc ==
           /\ (sb = "binds" => q \in {"declared", "alias", "unbound"})
           /\ sc = [Base EXCEPT !.qual = q, !.ikind = k, !.cptr = c, !.recv = r, !.pT = a, !.sib = sb]
 
-Init == InitSc /\ ph = "resolve" /\ bound = FALSE /\ found = FALSE /\ inms = FALSE /\ res = <<"none", {}>>
+  \/ /\ Family = "multi"     \* two annotations on one type
+     /\ \E q \in {"declared", "unbound"}, c \in BOOLEAN, r \in {"value", "pointer", "none"}, x \in Seconds :
+          sc = [Base EXCEPT !.qual = q, !.cptr = c, !.recv = r, !.second = x]
+
+Init == InitSc /\ ph = "resolve" /\ bound = FALSE /\ found = FALSE /\ inms = FALSE /\ res = <<"none", {}>> /\ res2 = <<"none", {}>>
 
 (***************************************************************************)
 (* L1                                                                      *)
@@ -111,6 +118,12 @@ Missing(s) == (IF InMethodSet(s) /\ SigIdentical(s) THEN {} ELSE {MName(s)}) \cu
 L1(s) == IF ~Bound(s.qual) THEN <<"IMPL01", {}>>
          ELSE IF s.ikind # "iface" THEN <<"IMPL02", {}>>
          ELSE IF Missing(s) = {} THEN <<"none", {}>> ELSE <<"IMPL03", Missing(s)>>
+
+L1Second(s) == CASE s.second \in {"unbound1", "unbound2"} -> <<"IMPL01", {}>>
+                  [] s.second \in {"viol1", "viol2"} -> <<"IMPL03", {"Nope"}>>
+                  [] OTHER -> <<"none", {}>>
+\* the first annotation of T in comment order has an unbound qualifier
+FirstUnbound(s) == s.second = "unbound1" \/ (s.second \in {"unbound2", "viol2", "ok2"} /\ ~Bound(s.qual))
 
 (***************************************************************************)
 (* L2                                                                      *)
@@ -128,14 +141,14 @@ ResolveQualifier ==
                         [] OTHER -> FALSE)
                 ELSE Bound(sc.qual)
   /\ ph' = "lookup"
-  /\ UNCHANGED <<sc, found, inms, res>>
+  /\ UNCHANGED <<sc, found, inms, res, res2>>
 
 LookupInterface ==
   /\ ph = "lookup"
   /\ found' = IF "SharedImports" \in Deviations /\ sc.sib = "binds" THEN FALSE    \* ... and leads to a package without I
               ELSE (bound /\ sc.ikind = "iface" /\ ~(sc.qual = "selfname"))       \* resolved to some other import: no such interface there
   /\ ph' = "mset"
-  /\ UNCHANGED <<sc, bound, inms, res>>
+  /\ UNCHANGED <<sc, bound, inms, res, res2>>
 
 BuildMethodSet ==
   /\ ph = "mset"
@@ -144,16 +157,20 @@ BuildMethodSet ==
                ELSE IF "OwnPkgLookup" \in Deviations /\ sc.sealed THEN sc.cptr    \* an unexported foreign method is not found in the value method set
                ELSE InMethodSet(sc)
   /\ ph' = "compare"
-  /\ UNCHANGED <<sc, bound, found, res>>
+  /\ UNCHANGED <<sc, bound, found, res, res2>>
 
 Same(a, b) == IF "StringMatch" \in Deviations THEN CodeKey(a) = CodeKey(b) ELSE Canon(a) = Canon(b)
 Compare ==
   /\ ph = "compare"
-  /\ res' = IF ~bound THEN <<"IMPL01", {}>>
-            ELSE IF ~found THEN <<"IMPL02", {}>>
-            ELSE LET ok == inms /\ Same(sc.pT, sc.pI) /\ Same(sc.rT, sc.rI) /\ sc.vT = sc.vI
-                     miss == (IF ok THEN {} ELSE {MName(sc)}) \cup (IF sc.two THEN {"Extra"} ELSE {})
-                 IN IF miss = {} THEN <<"none", {}>> ELSE <<"IMPL03", miss>>
+  \* DropTypeAfterUnbound: a type whose first annotation is unbound is left out of the type table; its other annotations are skipped silently
+  /\ LET drop == "DropTypeAfterUnbound" \in Deviations /\ FirstUnbound(sc)
+         main == IF ~bound THEN <<"IMPL01", {}>>
+                 ELSE IF ~found THEN <<"IMPL02", {}>>
+                 ELSE LET ok == inms /\ Same(sc.pT, sc.pI) /\ Same(sc.rT, sc.rI) /\ sc.vT = sc.vI
+                          miss == (IF ok THEN {} ELSE {MName(sc)}) \cup (IF sc.two THEN {"Extra"} ELSE {})
+                      IN IF miss = {} THEN <<"none", {}>> ELSE <<"IMPL03", miss>>
+     IN /\ res' = IF drop /\ main[1] = "IMPL03" THEN <<"none", {}>> ELSE main
+        /\ res2' = IF drop /\ L1Second(sc)[1] = "IMPL03" THEN <<"none", {}>> ELSE L1Second(sc)
   /\ ph' = "done"
   /\ UNCHANGED <<sc, bound, found, inms>>
 
@@ -163,7 +180,7 @@ Spec == Init /\ [][Next]_vars /\ WF_vars(ResolveQualifier \/ LookupInterface \/ 
 
 Done == ph = "done"
 Termination == <>Done
-Exact == Done => res = L1(sc)
+Exact == Done => res = L1(sc) /\ res2 = L1Second(sc)
 \* the three codes are mutually exclusive and ordered
 Ordered == Done => /\ (res[1] = "IMPL01" <=> ~Bound(sc.qual))
                    /\ (res[1] = "IMPL02" => Bound(sc.qual) /\ sc.ikind # "iface")
@@ -183,5 +200,5 @@ KF1(s) == IF s.ikind # "iface" THEN <<"IMPL02", {}>> ELSE IF Missing(s) = {} THE
 
 EmitInv == (Emit /\ Done) =>
    PrintT("@E " \o ToJson([sc |-> sc, code |-> L1(sc)[1], missing |-> L1(sc)[2], pinned_code |-> Pinned(sc)[1], pinned_missing |-> Pinned(sc)[2],
-                            kf1_code |-> KF1(sc)[1], kf1_missing |-> KF1(sc)[2]]))
+                            kf1_code |-> KF1(sc)[1], kf1_missing |-> KF1(sc)[2], code2 |-> L1Second(sc)[1], missing2 |-> L1Second(sc)[2]]))
 =============================================================================
